@@ -56,7 +56,8 @@ fn main() {
         usage();
     }
     guard::install();
-    rayon::ThreadPoolBuilder::new().num_threads(16).stack_size(16 << 20).build_global().ok();
+    let threads: usize = std::env::var("MCHECK_THREADS").ok().and_then(|s| s.parse().ok()).unwrap_or(16);
+    rayon::ThreadPoolBuilder::new().num_threads(threads).stack_size(16 << 20).build_global().ok();
     let run: &'static Run = Box::leak(Box::new(Run::new(&id, &tier)));
     if let Some(path) = replay {
         let body: serde_json::Value = match std::fs::read_to_string(&path).ok().and_then(|s| serde_json::from_str(&s).ok()) {
